@@ -834,7 +834,7 @@ impl<'r> VGen<'r> {
         let mut scope = Vec::new();
         let mut decl = Vec::new();
         let mut pre = String::new();
-        let ndef = if overloaded || !self.rng.chance(1, 3) { 0 } else { (1 + self.rng.below(2) as usize).min(np) };
+        let ndef = if overloaded || !self.rng.chance(1, 2) { 0 } else { (1 + self.rng.below(2) as usize).min(np) };
         for k in 0..np {
             let is_def = k + ndef >= np;
             let g = match (&forced_name, k) {
